@@ -18,23 +18,7 @@ def run(ctx):
     res.extra["announcement_derived_roster_checks"] = sum(r.get("derived_checks", 0) for r in results)
     res.floor("view_probes", probes, 300)
     res.floor("membership_changes", changes, 500)
-    # simultaneous renames of members of one channel to one nickname: afterwards NAMES lists everybody once under
-    # the nickname it now has, and the observer heard one NICK announcement per accepted rename
-    import multiprocessing
-    from .. import storm
-    binary, hooks = ctx.binary()
-    sjobs = [(binary, hooks, s, 2000 if hooks else 0, None, None, 12 if ctx.quick else 100, ctx.quick, ["rename"])
-             for s in ctx.seeds(8, "renamestorm")]
-    with multiprocessing.Pool(8) as pool:
-        souts = pool.map(storm.worker, sjobs)
-    for o in souts:
-        res.evaluations += o["rounds"]
-        res.extra["rename_storm_rounds"] = res.extra.get("rename_storm_rounds", 0) + o["rounds"]
-        for sig, detail in o["findings"]:
-            res.findings.append(Finding("c04:" + sig, detail, {"engine": "storm"}))
-        if o["inconclusive"]:
-            res.inconclusive += 1
-            res.inconclusive_notes.append(o["inconclusive"])
+    common.run_rename_storms(ctx, res, "c04:")
     for r in results[:3]:
         if r.get("tail"):
             res.add_sample({"episode_seed": r["seed"], "last_commands": r["tail"]})
